@@ -43,6 +43,7 @@ func vpC05_O1() {
 }
 
 func init() {
+	vpHarnesses["vpC05_O4"] = vpC05_O4
 	vpHarnesses["vpC05_O2"] = vpC05_O2
 	vpHarnesses["vpC05_O3"] = vpC05_O3
 }
@@ -124,4 +125,26 @@ func vpC05_O3() {
 		alt := &CLSignature{A: sig.A, E: sig.E, V: new(big.Int).Add(sig.V, d)}
 		vpAssert("altered v rejected", !alt.Verify(pk, ms))
 	}
+}
+
+// C05-O4: a signature that carries a keyshare contribution (the holder's part x of
+// the secret in the message block, the server's part as KeyshareP = R_0^y; the
+// issuer signed x + y) verifies, remains valid after randomisation, and does not
+// verify with another keyshare contribution.
+func vpC05_O4() {
+	pk, sk := vpKeys(0, 3, 1024, false)
+	x, y := vpBigBits("x", 254), vpBigBits("y", 254)
+	a1 := vpBigBits("a1", 256)
+	sig, err := SignMessageBlock(sk, pk, []*big.Int{new(big.Int).Add(x, y), a1})
+	vpAssume(err == nil)
+	ms := []*big.Int{x, a1}
+	ks := &CLSignature{A: sig.A, E: sig.E, V: sig.V, KeyshareP: new(big.Int).Exp(pk.R[0], y, pk.N)}
+	vpAssert("a signature with its keyshare contribution verifies", ks.Verify(pk, ms))
+	r1, err := ks.Randomize(pk)
+	vpAssume(err == nil)
+	vpAssert("a randomised signature with keyshare contribution verifies", r1.Verify(pk, ms))
+	y2 := vpBigBits("y2", 254)
+	vpAssume(y2.Cmp(y) != 0)
+	other := &CLSignature{A: sig.A, E: sig.E, V: sig.V, KeyshareP: new(big.Int).Exp(pk.R[0], y2, pk.N)}
+	vpAssert("a signature does not verify with another keyshare contribution", !other.Verify(pk, ms))
 }
